@@ -410,8 +410,8 @@ End WfSrc.
 (* ---- the walk ------------------------------------------------------------ *)
 
 Section Walk.
-  Variables (src : source) (tgt : target) (tr : tr_map).
-  Hypothesis Hli : local_iso src tgt tr.
+  Variables (src : source) (tgt : target) (tr : tr_map) (R : list ref).
+  Hypothesis Hli : local_iso_R R src tgt tr.
 
   Definition good (a b : obj) : Prop :=
     wf_obj a = true /\ wf_obj b = true /\ related src tr a b.
@@ -419,7 +419,7 @@ Section Walk.
   Lemma tget_wf t : wf_obj (tget tgt t) = true.
   Proof.
     unfold tget. destruct (lookup t tgt) as [v|] eqn:E; [|reflexivity].
-    apply lookup_In in E. eapply (li_wf_tgt _ _ _ Hli); eassumption.
+    apply lookup_In in E. eapply (lr_wf_tgt _ _ _ _ Hli); eassumption.
   Qed.
 
   Lemma related_ref_inv r b : related src tr (ORef r) b -> exists t, b = ORef t /\ lookup r tr = Some t.
@@ -443,14 +443,17 @@ Section Walk.
   Lemma deref_tgt_not_ref_id b : not_ref b -> deref_tgt tgt b = b.
   Proof. destruct b; try reflexivity. intros H. exfalso. eapply H. reflexivity. Qed.
 
+  Definition clear_ref (a : obj) : Prop := forall r, a = ORef r -> ~ In r R /\ ~ In (key src r) R.
+
   Lemma deref_good a b :
-    good a b -> good (deref_src src a) (deref_tgt tgt b) /\ not_ref (deref_src src a).
+    good a b -> clear_ref a -> good (deref_src src a) (deref_tgt tgt b) /\ not_ref (deref_src src a).
   Proof.
-    intros [Ha [Hb Hr]]. destruct (ref_or_not a) as [[r ->]|Hn].
+    intros [Ha [Hb Hr]] Hc. destruct (ref_or_not a) as [[r ->]|Hn].
     - destruct (related_ref_inv _ _ Hr) as [t [-> Hl]]. cbn [deref_src deref_tgt].
-      destruct (li_entry _ _ _ Hli r t (lookup_In _ _ _ Hl)) as [_ Hrel].
+      destruct (Hc r eq_refl) as [C1 C2].
+      destruct (lr_entry _ _ _ _ Hli r t (lookup_In _ _ _ Hl) C1) as [_ [Hx|Hrel]]; [contradiction|].
       rewrite val_key in Hrel. split; [|apply val_not_ref].
-      split; [apply val_wf; apply (li_wf_src _ _ _ Hli)|split; [apply tget_wf|exact Hrel]].
+      split; [apply val_wf; apply (lr_wf_src _ _ _ _ Hli)|split; [apply tget_wf|exact Hrel]].
     - rewrite (deref_not_ref_id _ Hn), (deref_tgt_not_ref_id _ (related_not_ref _ _ Hr Hn)).
       split; [split; [assumption|split; assumption]|exact Hn].
   Qed.
@@ -484,23 +487,43 @@ Section Walk.
       rewrite norm_stream in Hn. symmetry in Hn. apply norm_inv_stream in Hn. destruct Hn as [db [-> Hm]].
       destruct s as [i|k]; cbn [step]; [apply good_null|].
       cbn [wf_obj] in Ha, Hb. apply andb_true_iff in Ha, Hb. destruct Ha as [Ha1 Ha2], Hb as [Hb1 Hb2].
-      split; [apply inline_dict_wf; [apply (li_wf_src _ _ _ Hli)|assumption]|split; [now apply wf_dget|]].
+      split; [apply inline_dict_wf; [apply (lr_wf_src _ _ _ _ Hli)|assumption]|split; [now apply wf_dget|]].
       exists (dget k d3). split; [eapply renamed_stream_get; eassumption|].
       assert (Hd3 : nodup_keys (map fst d3) = true) by (rewrite (renamed_stream_keys _ _ _ _ _ _ H H0 H1); exact Ha1).
       rewrite <- (dget_nd k d3 Hd3), <- (dget_nd k db Hb1). now rewrite Hm.
   Qed.
 
-  Lemma walk_good : forall p a b, good a b -> good (walk_src src a p) (walk_tgt tgt b p).
+  Lemma walk_good : forall p a b, good a b -> walk_clear R src a p -> good (walk_src src a p) (walk_tgt tgt b p).
   Proof.
-    induction p as [|s p IH]; intros a b H; cbn [walk_src walk_tgt]; [exact H|].
-    apply IH. destruct (deref_good _ _ H) as [Hg Hn]. now apply step_good.
+    induction p as [|s p IH]; intros a b H Hc; cbn [walk_src walk_tgt]; [exact H|].
+    destruct Hc as [Hc1 Hc2]. apply IH; [|exact Hc2].
+    destruct (deref_good _ _ H Hc1) as [Hg Hn]. now apply step_good.
   Qed.
 End Walk.
 
+Lemma local_iso_to_R src tgt tr : local_iso src tgt tr -> local_iso_R [] src tgt tr.
+Proof.
+  intros [h1 h2 h3 h4]. constructor; auto.
+  - intros s t Hin _. destruct (h1 s t Hin) as [A B]. split; [exact A|now right].
+  - intros s1 s2 t H1 H2 _ _. eapply h2; eassumption.
+Qed.
+
+Lemma walk_clear_nil src : forall p o, walk_clear [] src o p.
+Proof.
+  induction p as [|s p IH]; intros o; cbn [walk_clear]; [exact I|].
+  split; [intros r _; split; intros []|apply IH].
+Qed.
+
+Lemma iso_paths_R : iso_paths_R_stmt.
+Proof.
+  intros R src tgt tr a b Hli [Ha [Hb Hr]] p Hc. cbn [fst snd] in *.
+  apply (walk_good src tgt tr R Hli p a b); [|exact Hc]. split; [assumption|split; assumption].
+Qed.
+
 Lemma iso_paths : iso_paths_stmt.
 Proof.
-  intros src tgt tr a b Hli [Ha [Hb Hr]] p. cbn [fst snd] in *.
-  apply (walk_good src tgt tr Hli p a b). split; [assumption|split; assumption].
+  intros src tgt tr a b Hli Hroot p.
+  apply (iso_paths_R [] src tgt tr a b (local_iso_to_R _ _ _ Hli) Hroot p). apply walk_clear_nil.
 Qed.
 
 (* ---- shapes -------------------------------------------------------------- *)
@@ -566,21 +589,34 @@ Proof.
     rewrite (pw_nn_keys _ _ Hp). now rewrite <- !nn_keys_nd, Hm.
 Qed.
 
+Lemma walk_clear_app R src : forall p q o,
+  walk_clear R src o (p ++ q) -> walk_clear R src o p /\ walk_clear R src (walk_src src o p) q.
+Proof.
+  induction p as [|s p IH]; intros q o; cbn [app walk_clear walk_src]; [auto|].
+  intros [H1 H2]. destruct (IH _ _ H2) as [A B]. auto.
+Qed.
+
+Lemma iso_shape_R : iso_shape_R_stmt.
+Proof.
+  intros R src tgt tr a b Hli [Ha [Hb Hr]] p Hc. cbn [fst snd] in *.
+  destruct (walk_clear_app _ _ _ _ _ Hc) as [Hc1 Hc2]. cbn [walk_clear] in Hc2. destruct Hc2 as [Hc2 _].
+  assert (Hg : good src tr (walk_src src a p) (walk_tgt tgt b p)).
+  { apply (walk_good src tgt tr R Hli); [|exact Hc1]. split; [assumption|split; assumption]. }
+  destruct (deref_good src tgt tr R Hli _ _ Hg Hc2) as [[_ [_ Hrel]] Hn].
+  eapply shape_good; eassumption.
+Qed.
+
 Lemma iso_shape : iso_shape_stmt.
 Proof.
-  intros src tgt tr a b Hli [Ha [Hb Hr]] p. cbn [fst snd] in *.
-  assert (Hg : good src tr (walk_src src a p) (walk_tgt tgt b p)).
-  { apply walk_good; [exact Hli|]. split; [assumption|split; assumption]. }
-  destruct (deref_good src tgt tr Hli _ _ Hg) as [[_ [_ Hrel]] Hn].
-  eapply shape_good; eassumption.
+  intros src tgt tr a b Hli Hroot p.
+  apply (iso_shape_R [] src tgt tr a b (local_iso_to_R _ _ _ Hli) Hroot p). apply walk_clear_nil.
 Qed.
 
 Lemma iso_sharing : iso_sharing_stmt.
 Proof.
-  intros src tgt tr a b Hli [Ha [Hb Hr]] p q r1 r2 Hp Hq. cbn [fst snd] in *.
-  assert (Hg : forall p, good src tr (walk_src src a p) (walk_tgt tgt b p)).
-  { intros p0. apply walk_good; [exact Hli|]. split; [assumption|split; assumption]. }
-  destruct (Hg p) as [_ [_ Hrp]]. destruct (Hg q) as [_ [_ Hrq]].
+  intros src tgt tr a b Hli Hroot p q r1 r2 Hp Hq.
+  pose proof (iso_paths src tgt tr a b Hli Hroot p) as Hrp.
+  pose proof (iso_paths src tgt tr a b Hli Hroot q) as Hrq.
   rewrite Hp in Hrp. rewrite Hq in Hrq.
   destruct (related_ref_inv _ _ _ _ Hrp) as [t1 [E1 L1]].
   destruct (related_ref_inv _ _ _ _ Hrq) as [t2 [E2 L2]].
